@@ -1084,6 +1084,11 @@ func (w *ccWorld) mine() int32 {
 // pumpOne delivers exactly one pending notification of the live incarnation
 // in an order that does not depend on goroutine scheduling. It returns a
 // description of what was delivered, or "" if nothing is pending.
+//
+// Order: block epochs a subscriber has not seen yet (a real notifier sends
+// the current tip at registration), spends of outpoints that are already
+// spent, the breach arbitrator's completion, and only then the confirmation
+// of a sweep the node asked for (that takes a block in reality).
 func (w *ccWorld) pumpOne(inc *ccInc) string {
 	w.mu.Lock()
 	defer w.mu.Unlock()
@@ -1107,7 +1112,7 @@ func (w *ccWorld) pumpOne(inc *ccInc) string {
 			continue
 		}
 		cs = append(cs, cand{
-			key: fmt.Sprintf("1spend:%v:%06d", s.op, s.seq),
+			key: fmt.Sprintf("2spend:%v:%06d", s.op, s.seq),
 			do: func() {
 				s.delivered = true
 				s.ch <- d
@@ -1120,7 +1125,7 @@ func (w *ccWorld) pumpOne(inc *ccInc) string {
 			continue
 		}
 		cs = append(cs, cand{
-			key: fmt.Sprintf("2sweep:%v:%06d", r.op, r.seq),
+			key: fmt.Sprintf("4sweep:%v:%06d", r.op, r.seq),
 			do: func() {
 				r.done = true
 				if d, ok := w.spent[r.op]; ok {
@@ -1174,7 +1179,7 @@ func (w *ccWorld) pumpOne(inc *ccInc) string {
 			continue
 		}
 		cs = append(cs, cand{
-			key: fmt.Sprintf("4epoch:%09d:%s:%06d", e.next, e.ident,
+			key: fmt.Sprintf("1epoch:%09d:%s:%06d", e.next, e.ident,
 				e.seq),
 			do: func() {
 				e.ch <- &chainntnfs.BlockEpoch{
@@ -1708,10 +1713,18 @@ func ccBuildArb(t *testing.T, sc *ccScenario, inc *ccInc,
 		r *channeldb.ResolverReport) error {
 
 		s := ccReportString(r)
+		if r.ResolverType == channeldb.ResolverTypeAnchor {
+			// The anchor resolver is stateless and not tracked by
+			// the log; whether its sweep completes before the
+			// channel is fully resolved is a matter of timing.
+			s = ""
+		}
 		if tx != nil {
 			// Part of the enclosing log write.
 			w.mu.Lock()
-			w.pendRep = append(w.pendRep, s)
+			if s != "" {
+				w.pendRep = append(w.pendRep, s)
+			}
 			w.mu.Unlock()
 
 			return nil
@@ -1719,7 +1732,9 @@ func ccBuildArb(t *testing.T, sc *ccScenario, inc *ccInc,
 
 		return inc.effect("PutResolverReport", func() error {
 			w.mu.Lock()
-			w.pendRep = append(w.pendRep, s)
+			if s != "" {
+				w.pendRep = append(w.pendRep, s)
+			}
 			w.mu.Unlock()
 
 			return nil
